@@ -238,6 +238,120 @@ def recurring(d, mmax, jmax, hmax, drive="loop", pick_m=True):
     d.reach()
 
 
+# ------------------------------------------------------------------ deferred
+class _Boom(Exception):
+    pass
+
+
+class _Due(OneShotTask):
+    def __init__(self, body):
+        OneShotTask.__init__(self)
+        self.body = body
+
+    def process_task(self):
+        self.body()
+
+
+@meta(bounds="a batch of nmin <= n <= nmax functions handed to core.deferred (n symbolic) and T <= tmax one-shot tasks due "
+             "at the same instant (T symbolic), each function and each task with a symbolic `raises` flag and a "
+             "symbolic `defers a further function` flag (the further function is handed to the queue before the "
+             "exception is raised; further functions themselves neither raise nor defer): every subset of "
+             "raisers, every subset of deferrers.  loop=run: the real core.run on the virtual clock, until it is "
+             "idle.  loop=run_once: the real core.run_once; when nothing raised, one call has to do everything; "
+             "when something raised it is called again (as tests/time_machine.py does) until nothing is left or "
+             "2*nmax+tmax+2 calls were made, then once more (no second call of anything).  Oracle: the sequence of "
+             "deferred calls equals the sequence of submissions (exactly once, FIFO); every task fired exactly "
+             "once, in installation order.",
+      outside="batches larger than nmax, more than tmax simultaneous tasks, further functions that raise or defer "
+              "again, KeyboardInterrupt, threads",
+      stubs=STUBS, assumes=[])
+def deferred(d, loop, nmin, nmax, tmax, lead=None):
+    w = World()
+    submitted, called, fired, raised = [], [], [], []
+
+    def submit(name, fn):
+        submitted.append(name)
+        core.deferred(fn)
+
+    def member(name, raises, defers, record):
+        def child():
+            called.append(name + "'")
+
+        def body():
+            record.append(name)
+            if defers:
+                submit(name + "'", child)
+            if raises:
+                raised.append(name)
+                raise _Boom(name)
+        return body
+
+    n = d.int(nmin, nmax, 'n')
+    nt = d.int(0, tmax, 'tasks')
+    fns = []
+    for i in range(nmax):
+        if i >= n:
+            break
+        if i == 0 and lead is not None:
+            fns.append(("f0", lead[0], lead[1]))        # instance split: the flags of f0 are fixed
+        else:
+            fns.append(("f%d" % i, d.bool('raises%d' % i), d.bool('defers%d' % i)))
+    tks = []
+    for j in range(tmax):
+        if j >= nt:
+            break
+        tks.append(("t%d" % j, d.bool('traises%d' % j), d.bool('tdefers%d' % j)))
+    for name, r, f in fns:
+        submit(name, member(name, r, f, called))
+    for name, r, f in tks:
+        _Due(member(name, r, f, fired)).install_task(when=0)
+    want_tasks = [name for name, _, _ in tks]
+
+    def pending():
+        return len(called) < len(submitted) or len(fired) < len(want_tasks)
+
+    passes = 0
+    if loop == "run":
+        w.run(until=w.clock, max_loops=8 * (nmax + tmax) + 16)
+    else:
+        core.run_once()
+        passes = 1
+        if not raised and pending():
+            # nothing raised, so nothing excuses work that is left behind by the pass
+            raise Violation("left-after-one-pass", loop=loop, submitted=list(submitted),
+                            called=list(called), tasks=want_tasks, fired=list(fired))
+        while pending() and passes < 2 * nmax + tmax + 2:
+            core.run_once()
+            passes += 1
+        core.run_once()
+    d.note(submitted=list(submitted), called=list(called), fired=list(fired), raised=list(raised), passes=passes)
+    # deferred calls: exactly once, in submission order
+    for name in called:
+        if called.count(name) > 1:
+            raise Violation("deferred-called-twice", loop=loop, fn=name, called=list(called))
+    if called != submitted[:len(called)] and sorted(called) == sorted(submitted):
+        raise Violation("deferred-order", loop=loop, submitted=list(submitted), called=list(called))
+    lost = [x for x in submitted if x not in called]
+    if lost:
+        before = [x for x in raised if x in submitted and submitted.index(x) < submitted.index(lost[0])]
+        if before:
+            # the defect this kind names: the functions queued behind a raising one are discarded
+            raise Violation("deferred-batch-dropped", loop=loop, raiser=before[-1], dropped=lost,
+                            submitted=list(submitted), called=list(called))
+        raise Violation("deferred-not-called", loop=loop, lost=lost, submitted=list(submitted),
+                        called=list(called), raised=list(raised))
+    if called != submitted:
+        raise Violation("deferred-order", loop=loop, submitted=list(submitted), called=list(called))
+    # tasks due at that instant: each once, in installation order, whoever raised
+    for name in fired:
+        if fired.count(name) > 1:
+            raise Violation("task-fired-twice", loop=loop, task=name, fired=list(fired))
+    if fired != want_tasks:
+        kind = "task-order" if sorted(fired) == sorted(want_tasks) else "due-task-not-run"
+        raise Violation(kind, loop=loop, tasks=want_tasks, fired=list(fired), raised=list(raised))
+    d.reach()
+
+
 def _prefixes(k):
     out = [[]]
     for _ in range(k):
@@ -245,16 +359,59 @@ def _prefixes(k):
     return out
 
 
+# opcode shapes beyond the exhaustive length (tasks and instants stay symbolic): what each aims at
+SHAPES_QUICK = [
+    ["at", "at", "at", "suspend"],              # removal from a schedule of three: the rest stays ordered
+    ["at", "at", "at", "at"],                   # four-way collisions, re-installs among three pending
+    ["at", "suspend", "resume", "advance"],     # resume after suspend, then time moves
+    ["at", "advance", "suspend", "at"],         # suspend of an already-fired task, then a new installation
+    ["after", "advance", "at", "advance"],      # installation in the past / future once time has moved
+    ["at", "at", "suspend", "resume", "advance"],
+]
+SHAPES_THOROUGH = SHAPES_QUICK + [
+    ["at", "at", "at", "at", "suspend"],
+    ["at", "at", "at", "suspend", "suspend"],
+    ["at", "at", "at", "suspend", "resume"],
+    ["at", "at", "advance", "at", "advance"],
+    ["at", "after", "advance", "after", "advance"],
+    ["at", "at", "at", "advance", "at"],
+    ["at", "at", "suspend", "advance", "resume", "advance"],
+    ["at", "advance", "at", "advance", "at", "advance"],
+    ["after", "suspend", "advance", "resume", "suspend", "advance"],
+    ["at", "at", "at", "suspend", "at", "advance"],
+]
+
+
 def instances(tier):
     q = tier == "quick"
     out = []
+    nops, plen = (3, 1) if q else (4, 2)
     for drive in ("loop", "direct"):
-        nops = 4 if q else 6
-        plen = 2
         for pre in _prefixes(plen):
             out.append(Inst(sched_ops, dict(ntasks=4, nops=nops, drive=drive, pre=pre),
-                            budget=80 if q else 800,
-                            label="%s,%d:%s" % (drive, nops, "-".join(pre))))
+                            budget=90 if q else 900,
+                            label="%s,all<=%d:%s" % (drive, nops, "-".join(pre))))
         out.append(Inst(sched_ops, dict(ntasks=4, nops=plen - 1, drive=drive, pre=[], short=True),
-                        budget=60, label="%s,short<=%d" % (drive, plen - 1)))
+                        budget=60, label="%s,all<=%d" % (drive, plen - 1)))
+    for i, shape in enumerate(SHAPES_QUICK if q else SHAPES_THOROUGH):
+        for drive in (("loop", "direct")[i % 2],) if q else ("loop", "direct"):
+            out.append(Inst(sched_ops, dict(ntasks=4, nops=len(shape), drive=drive, pre=shape),
+                            budget=120 if q else 900, label="%s,shape:%s" % (drive, "-".join(shape))))
+    for drive in ("loop", "direct"):
+        if q:
+            out.append(Inst(recurring, dict(mmax=8, jmax=16, hmax=16, drive=drive), budget=90))
+        else:
+            out.append(Inst(recurring, dict(mmax=16, jmax=32, hmax=32, drive=drive), budget=900))
+    for loop in ("run", "run_once"):
+        if q:
+            out.append(Inst(deferred, dict(loop=loop, nmin=0, nmax=3, tmax=2), budget=90))
+            out.append(Inst(deferred, dict(loop=loop, nmin=4, nmax=4, tmax=2), budget=120))
+        else:
+            out.append(Inst(deferred, dict(loop=loop, nmin=0, nmax=3, tmax=3), budget=600))
+            out.append(Inst(deferred, dict(loop=loop, nmin=4, nmax=4, tmax=2), budget=600))
+            out.append(Inst(deferred, dict(loop=loop, nmin=5, nmax=5, tmax=2), budget=900))
+            for r0 in (False, True):
+                for f0 in (False, True):
+                    out.append(Inst(deferred, dict(loop=loop, nmin=6, nmax=6, tmax=2, lead=[r0, f0]),
+                                    budget=900))
     return out
